@@ -63,7 +63,19 @@ RULE = (
     "3600 rows with boxes shifted against each other (C17/rows/large, n_search*n_source > 2**22), rows with entries beyond "
     "2**31 / 2**53 / 2**62 and float rows that differ by one ulp / 1e-9 / 1e-12, Khatri-Rao factors with 2e4 .. 1.5e5 result "
     "rows or 33 .. 257 columns, one or two factors spanning 1e-300 .. 1e+300 (exact: one multiplication per entry), whole "
-    "factors scaled by 1e-9 / 1e-12, factors without rows or without columns."
+    "factors scaled by 1e-9 / 1e-12, factors without rows or without columns.  Round 4 (how the caller presents valid arguments): "
+    "C17/rows/presented - rows of 1 and of 6..8 columns, each operand in its own dtype (int8 .. uint64, intp, float32, float64; "
+    "entries at the ends of the range both dtypes hold) and memory layout (C, F, row-strided in C and F order, column slice, "
+    "backwards view, transpose, read-only) handed over as it is (no copy), operands compared afterwards; C17/index/presented - "
+    "order 6..8, the shape as a tuple of numpy integers of every width / an ndarray / the shape of a sparse tensor, index and "
+    "subscript arrays in int8 .. uint64 in those layouts, order= positionally or by keyword; C17/khatrirao/presented - 1..6 "
+    "matrices (half of them one-column) as separate arguments / *list / *tuple, reverse omitted / False / True, float32 and "
+    "int8 .. int64 / uint8 / uint16 per matrix, those layouts, exact products, compared with the float64 C-contiguous "
+    "presentation of the same request; C17/dimscheck/presented - N and M as numpy integers, designations as lists of numpy "
+    "integers / arrays in int8 .. uint64 / views / numpy scalars, positional and keyword calls; each of them also with the root "
+    "logger at DEBUG.  Stated rejections whose ill-formed part NumPy broadcasting would hide (column counts 1 vs n, a vector for a "
+    "matrix), repeated dims, dims next to an empty exclude_dims (C17/khatrirao/rejected, C17/dimscheck/rejected-r4), and after "
+    "every rejected request the arguments bit for bit as before and a following valid request answered correctly."
 )
 ASSUMPTIONS = [
     "row helpers: MATLAB 'rows' set semantics as far as callers in sptensor.py depend on them (validity, distinctness, "
@@ -81,6 +93,11 @@ ASSUMPTIONS = [
     "seed with numpy's default_rng inside the body; extreme-range Khatri-Rao products are judged exactly only for one or two "
     "factors (with three the association order decides what underflows)",
     "khatrirao of a single matrix returns a reshaped view of its argument (NumPy convention); writing into it is not judged",
+    "round 4: a row operand in uint64 next to a signed operand is kept to entries <= 2**53 (NumPy's common type of uint64 and a "
+    "signed integer is float64; tt_union_rows returns the stacked rows in that type); float32 rows hold only values float32 "
+    "represents exactly; khatrirao entries in C17/khatrirao/presented are multiples of 1/2 in [-2, 2] so that every product of "
+    "up to six is exact in every dtype involved (no rounding bound needed); `reverse` is keyword-only, so it is never given "
+    "positionally; a bare tuple of matrices or row matrices of different widths are not stated to be rejected and not judged",
 ]
 
 
@@ -296,6 +313,16 @@ def _present(vals, form):
     raise ValueError(form)
 
 
+def _snap_args(kw):
+    """round 4 (class 12): the arguments of a request that is going to be rejected, to be compared afterwards"""
+    return {a: (np.array(v, copy=True), type(v)) for a, v in kw.items()}
+
+
+def _args_left_alone(kw, keep):
+    return all(type(kw[a]) is t and np.asarray(kw[a]).shape == v.shape and np.array_equal(np.asarray(kw[a]), v)
+               for a, (v, t) in keep.items())
+
+
 def _enum_dimscheck(tier):
     for N in range(1, 6):
         modes = list(range(N))
@@ -343,7 +370,9 @@ def dimscheck_enumerated(ctx, case):
               "ascending" if chosen == sdims_exp else "not-ascending")
     if M is not None and (M > N or M not in (N, P)):
         # stated: "Cannot have more multiplicands than dimensions" / "Invalid number of multiplicands"
+        keep = _snap_args(kw)
         ctx.raises("dimscheck-bad-multiplicand-count-accepted", ttu.tt_dimscheck, N, M, **kw)
+        ctx.check(_args_left_alone(kw, keep), "dimscheck-rejected-request-leaves-arguments")  # round 4 (class 12)
         return
     Narg, Marg = (np.int64(N), None if M is None else np.int32(M)) if case.get("npN") else (N, M)
     with ctx.sut("tt_dimscheck"):
@@ -401,8 +430,10 @@ def dimscheck_errors(ctx, case):
         kw["dims"] = _present(case["dims"], case["form"])
     if case["exclude"] is not None:
         kw["exclude_dims"] = _present(case["exclude"], case["form"])
+    keep = _snap_args(kw)
     ctx.raises(f"dimscheck-{case['kind']}-accepted", ttu.tt_dimscheck, N, None, **kw)
     ctx.raises(f"dimscheck-{case['kind']}-accepted-with-M", ttu.tt_dimscheck, N, N, **kw)
+    ctx.check(_args_left_alone(kw, keep), "dimscheck-rejected-request-leaves-arguments")  # round 4 (class 12)
 
 
 # ==========================================================================
@@ -411,7 +442,9 @@ def dimscheck_errors(ctx, case):
 
 
 _ROW_DTYPES = {"int": np.int64, "float": np.float64, "int32": np.int32, "uint8": np.uint8, "uint16": np.uint16,
-               "int8": np.int8}
+               "int8": np.int8,
+               # round 4
+               "int16": np.int16, "uint32": np.uint32, "uint64": np.uint64, "intp": np.intp, "float32": np.float32}
 
 
 def _mat(rows, width, empty_form, dtype="int", layout="C"):
@@ -427,6 +460,28 @@ def _mat(rows, width, empty_form, dtype="int", layout="C"):
         big = np.zeros((2 * len(rows), width), dtype=dt)
         big[::2] = M
         return big[::2]
+    return _view_as(M, layout)
+
+
+def _view_as(M, layout):
+    """round 4: further presentations of one 2-D array (same values, same dtype): views with other strides, read-only"""
+    r, c = M.shape
+    if layout == "F-strided":  # every other row of an F-ordered array (neither C- nor F-contiguous, F-like strides)
+        big = np.zeros((2 * r, c), dtype=M.dtype, order="F")
+        big[::2] = M
+        return big[::2]
+    if layout == "colslice":  # every other column of a wider array, e.g. ``subs[:, dims]`` taken as a slice
+        big = np.full((r, 2 * c + 1), 1, dtype=M.dtype)
+        big[:, 1::2] = M
+        return big[:, 1::2]
+    if layout == "reversed":  # a view that walks the buffer backwards (``x[::-1]``)
+        return np.ascontiguousarray(M[::-1])[::-1]
+    if layout == "transposed":  # ``X.T`` of a C-ordered array (what ``np.array(columns).T`` gives)
+        return np.ascontiguousarray(M.T).T
+    if layout in ("readonly", "F-readonly"):  # e.g. an array that came out of np.broadcast_to / a memory map / a frozen attribute
+        out = np.asfortranarray(M.copy()) if layout == "F-readonly" else M.copy()
+        out.setflags(write=False)
+        return out
     return M
 
 
@@ -440,11 +495,14 @@ def _mats(case, A, B, w):
 def _holding(dtype, rows):
     """``dtype`` if it can hold every entry of ``rows``, else int64 (an array is generated in a dtype that holds it)"""
     dt = np.dtype(_ROW_DTYPES[dtype])
-    if dt.kind in "iu" and len(rows):
+    flat = [v for r in rows for v in r]
+    if dt.kind in "iu" and flat:
         ii = np.iinfo(dt)
-        flat = [v for r in rows for v in r]
         if min(flat) < ii.min or max(flat) > ii.max:
-            return "int"
+            return "uint64" if max(flat) > np.iinfo(np.int64).max else "int"
+    if dt.kind == "f" and flat and dtype != "float":  # (round 4: float32 holds only what it represents exactly)
+        if any(float(dt.type(v)) != v for v in flat):
+            return "float"
     return dtype
 
 
@@ -524,15 +582,34 @@ def _index_list(ctx, got, n, name):
     return out
 
 
+def _arg(M, case):
+    """the operand as handed to the helper: a private copy (rounds 1-3; NB a copy is contiguous again), or - round 4,
+    ``as_is`` - the presented array itself, strides and write flag included"""
+    return M if case.get("as_is") else M.copy()
+
+
+def _left_alone(ctx, case, name, *pairs):
+    """round 4 (``as_is`` cases): the helper only reads its operands"""
+    if case.get("as_is"):
+        ctx.check(all(np.array_equal(M, keep) and M.dtype == keep.dtype and M.strides == st_ and M.flags.writeable == wr
+                      for M, (keep, st_, wr) in pairs), f"{name}-leaves-arguments")
+
+
+def _snap(M):
+    return (M.copy(), M.strides, M.flags.writeable)
+
+
 def check_intersect(ctx, case, tagged=True):
     A, B = _tuples(case["A"]), _tuples(case["B"])
     w = case["width"]
     pc = pair_class(case)
     MA, MB = _mats(case, A, B, w)
+    sA, sB = _snap(MA), _snap(MB)
     with ctx.sut("tt_intersect_rows(A,B)"):
-        ia = ttu.tt_intersect_rows(MA.copy(), MB.copy())
+        ia = ttu.tt_intersect_rows(_arg(MA, case), _arg(MB, case))
     with ctx.sut("tt_intersect_rows(B,A)"):
-        ib = ttu.tt_intersect_rows(MB.copy(), MA.copy())
+        ib = ttu.tt_intersect_rows(_arg(MB, case), _arg(MA, case))
+    _left_alone(ctx, case, "intersect", (MA, sA), (MB, sB))
     ia = _index_list(ctx, ia, len(A), "intersect")
     ib = _index_list(ctx, ib, len(B), "intersect")
     ta, tb = _rep_tag(pc, "A"), _rep_tag(pc, "B")
@@ -562,8 +639,10 @@ def check_setdiff(ctx, case):
     w = case["width"]
     pc = pair_class(case)
     MA, MB = _mats(case, A, B, w)
+    sA, sB = _snap(MA), _snap(MB)
     with ctx.sut("tt_setdiff_rows"):
-        got = ttu.tt_setdiff_rows(MA.copy(), MB.copy())
+        got = ttu.tt_setdiff_rows(_arg(MA, case), _arg(MB, case))
+    _left_alone(ctx, case, "setdiff", (MA, sA), (MB, sB))
     idx = _index_list(ctx, got, len(A), "setdiff")
     ta = _rep_tag(pc, "A")
     ok = all(0 <= i < len(A) for i in idx)
@@ -579,8 +658,10 @@ def check_union(ctx, case):
     w = case["width"]
     pc = pair_class(case)
     MA, MB = _mats(case, A, B, w)
+    sA, sB = _snap(MA), _snap(MB)
     with ctx.sut("tt_union_rows"):
-        got = ttu.tt_union_rows(MA.copy(), MB.copy())
+        got = ttu.tt_union_rows(_arg(MA, case), _arg(MB, case))
+    _left_alone(ctx, case, "union", (MA, sA), (MB, sB))
     ctx.require(isinstance(got, np.ndarray), "union-returns-array", type(got).__name__)
     want = set(A) | set(B)
     if not want:
@@ -599,8 +680,10 @@ def check_ismember(ctx, case):
     MS = _mat(S, w, "0xw", _holding(case.get("dtype", "int"), S), case.get("layout", "C"))  # (1,0) as *search* would be one row of width 0
     MT = _mat(T, w, case.get("empty_form", "0xw"), _holding(case.get("dtypeB", case.get("dtype", "int")), T),
               case.get("layoutB", case.get("layout", "C")))
+    sS, sT = _snap(MS), _snap(MT)
     with ctx.sut("tt_ismember_rows"):
-        out = ttu.tt_ismember_rows(MS.copy(), MT.copy())
+        out = ttu.tt_ismember_rows(_arg(MS, case), _arg(MT, case))
+    _left_alone(ctx, case, "ismember", (MS, sS), (MT, sT))
     ctx.require(isinstance(out, tuple) and len(out) == 2, "ismember-returns-pair")
     matched, results = out
     ctx.require(isinstance(matched, np.ndarray) and isinstance(results, np.ndarray), "ismember-arrays")
@@ -1018,7 +1101,10 @@ def parse_shape_cell(ctx, case):
     if case["expect"] == "error":
         # stated: "Numpy arrays used as shapes must be integer valued" / "...only have one non-trivial dimension" /
         # "Shapes entries must be integers"
-        ctx.raises("parse_shape-accepts-non-shape", ttu.parse_shape, _shape_arg(sh, case["form"]))
+        bad = _shape_arg(sh, case["form"])
+        keep = _snap_args(dict(shape=bad))
+        ctx.raises("parse_shape-accepts-non-shape", ttu.parse_shape, bad)
+        ctx.check(_args_left_alone(dict(shape=bad), keep), "parse_shape-rejected-request-leaves-argument")  # round 4 (class 12)
         return
     if case["form"] in ("np-col", "np-row", "np-k11", "np1d-int64", "np1d-int32", "np1d-uint8") and len(sh) == 0:
         arg = np.array([], dtype=int)
@@ -1062,7 +1148,9 @@ def parse_one_d_cell(ctx, case):
     }[case["form"]]()
     if case["expect"] == "error":
         # stated: "Vector can have at most one non-trivial dimension"
+        keep = _snap_args(dict(v=arg))
         ctx.raises("parse_one_d-accepts-matrix", ttu.parse_one_d, arg)
+        ctx.check(_args_left_alone(dict(v=arg), keep), "parse_one_d-rejected-request-leaves-argument")  # round 4 (class 12)
         return
     with ctx.sut("parse_one_d"):
         out = ttu.parse_one_d(arg)
@@ -1393,6 +1481,555 @@ def khatrirao_enum(ctx, case):
 
 
 # ==========================================================================
+# round 4: how the caller presents valid arguments (class 11), state after a rejected request (12), process environment
+# (13), ill-formed requests that broadcasting hides (14)
+# ==========================================================================
+
+import contextlib
+import logging
+
+
+@contextlib.contextmanager
+def _root_logger_at_debug(on):
+    """class 13: the root logger at DEBUG (with a NullHandler) while the helper runs; restored afterwards.  The helpers
+    must compute the same thing whatever the logging level of the process is."""
+    if not on:
+        yield
+        return
+    root = logging.getLogger()
+    old = root.level
+    h = logging.NullHandler()
+    root.addHandler(h)
+    root.setLevel(logging.DEBUG)
+    try:
+        yield
+    finally:
+        root.setLevel(old)
+        root.removeHandler(h)
+
+
+_R4_ROW_DTYPES = ["int", "int32", "int16", "int8", "uint8", "uint16", "uint32", "uint64", "intp", "float", "float32"]
+_R4_LAYOUTS = ["C", "F", "strided", "F-strided", "colslice", "reversed", "transposed", "readonly", "F-readonly"]
+def _r4_range(name):
+    """the integers a row dtype holds exactly"""
+    dt = np.dtype(_ROW_DTYPES[name])
+    if dt.kind == "f":
+        m = 2 ** (np.finfo(dt).nmant + 1)
+        return -m, m
+    ii = np.iinfo(dt)
+    return int(ii.min), int(ii.max)
+
+
+def _r4_letters(dA, dB, kind):
+    """entries both operands' dtypes hold: a small alphabet, or the ends of the common range (255 for uint8 next to int16,
+    127 next to int8, 2**31 - 1, 2**64 - 1 for two uint64 operands ...); multiples of 1/2 when both are floating point"""
+    if kind == "small":
+        return [0, 1, 2]
+    (la, ha), (lb, hb) = _r4_range(dA), _r4_range(dB)
+    lo, hi = max(la, lb), min(ha, hb)
+    if dA != dB and "uint64" in (dA, dB) and min(la, lb) < 0:
+        hi = min(hi, 2 ** 53)  # uint64 next to a signed type: NumPy's common type is float64
+    if kind == "halves":
+        return [0.0, 0.5, 1.0, 2.5, -1.5]
+    out = [0, 1, hi, hi - 1, hi // 2 + 1]
+    if lo < 0:
+        out += [-1, lo]
+    if hi > 2 ** 53:
+        out += [2 ** 53, 2 ** 53 + 1]
+    return out
+
+
+@st.composite
+def _row_pair_r4(draw, tier):
+    """two row matrices as ordinary callers hold them: one column or many (6-8) columns, each operand in a generated
+    integer / float dtype (int16, uint32, uint64, intp, float32 besides the earlier ones; the same for both or mixed) and
+    memory layout (C, F, row-strided in C and F order, a column slice of a wider array, a backwards view, a transpose,
+    read-only), passed *as they are* (no copy in between).  Rows are built so that many differ in exactly one column."""
+    w = draw(st.sampled_from([1, 1, 2, 3, 6, 7, 8]))
+    dA = draw(st.sampled_from(_R4_ROW_DTYPES))
+    floats = {"float", "float32"}
+    dB = dA if draw(st.integers(0, 2)) == 0 else draw(st.sampled_from(_R4_ROW_DTYPES))
+    if dA in floats and dB not in floats and draw(st.booleans()):
+        dB = draw(st.sampled_from(["float32", "float"]))
+    lk = draw(st.sampled_from(["small", "edge", "edge"] + (["halves", "halves"] if {dA, dB} <= floats else [])))
+    letters = _r4_letters(dA, dB, lk)
+    base = [draw(st.sampled_from(letters)) for _ in range(w)]
+    pool = [tuple(base)]
+    for _ in range(draw(st.integers(0, 6))):
+        if draw(st.booleans()):  # differs from an earlier row in exactly one column (first, last or any)
+            r = list(pool[draw(st.integers(0, len(pool) - 1))])
+            r[draw(st.sampled_from([0, w - 1, draw(st.integers(0, w - 1))]))] = draw(st.sampled_from(letters))
+        else:
+            r = [draw(st.sampled_from(letters)) for _ in range(w)]
+        if tuple(r) not in pool:
+            pool.append(tuple(r))
+    where = [draw(st.sampled_from(["both", "both", "both", "A", "B"])) for _ in pool]
+    A = [list(r) for r, t in zip(pool, where) if t in ("both", "A")]
+    B = [list(r) for r, t in zip(pool, where) if t in ("both", "B")]
+
+    def present(rows):
+        if not rows:
+            return rows
+        rows = list(draw(st.permutations(rows)))
+        if draw(st.booleans()):
+            for _ in range(draw(st.integers(1, 3))):
+                r = rows[draw(st.integers(0, len(rows) - 1))]
+                rows.insert(draw(st.integers(0, len(rows))), list(r))
+        return rows
+
+    A, B = present(A), present(B)
+    mode = draw(st.sampled_from(["pair"] * 10 + ["empty-A", "empty-B"]))
+    if mode == "empty-A":
+        A = []
+    elif mode == "empty-B":
+        B = []
+    return dict(A=A, B=B, width=w, empty_form=draw(st.sampled_from(["1x0", "0xw"])), dtype=dA, dtypeB=dB,
+                layout=draw(st.sampled_from(_R4_LAYOUTS)), layoutB=draw(st.sampled_from(_R4_LAYOUTS)), mode=mode,
+                entries=lk, as_is=True, debug_logging=draw(st.sampled_from([False, False, True])))
+
+
+def _r4_effective(case):
+    """the dtypes actually used (after ``_holding``) - pure function of the case"""
+    A, B = _tuples(case["A"]), _tuples(case["B"])
+    return _holding(case["dtype"], A), _holding(case["dtypeB"], B)
+
+
+def _r4_sound(case):
+    """a mix of uint64 with a signed type has no common integer type in NumPy (float64): kept to entries below 2**53"""
+    dA, dB = _r4_effective(case)
+    if {dA, dB} <= {"uint64"} or "uint64" not in (dA, dB):
+        return True
+    return all(abs(v) <= 2 ** 53 for r in list(case["A"]) + list(case["B"]) for v in r)
+
+
+@cell("C17/rows/presented", strategy=_row_pair_r4, quick=400, thorough=3000, shards=(2, 8))
+def rows_presented(ctx, case):
+    """class 11 / 13: all four helpers on operands in the dtype and memory layout the caller happens to hold them in"""
+    pc = pair_class(case)
+    ctx.nt = _nt_pair(pc)
+    dA, dB = _r4_effective(case)
+    if not _r4_sound(case):
+        ctx.skip("uint64 beyond 2**53 mixed with a signed type")
+        return
+    _label_pair(ctx, pc)
+    ctx.label("width-%d" % case["width"], "A-" + dA, "B-" + dB, "dtypes-same" if dA == dB else "dtypes-mixed",
+              "layoutA-" + case["layout"], "layoutB-" + case["layoutB"], "entries-" + case["entries"], "mode-" + case["mode"],
+              "debug-logging" if case["debug_logging"] else "default-logging")
+    with _root_logger_at_debug(case["debug_logging"]):
+        check_ismember(ctx, case)
+        check_intersect(ctx, case)
+        check_setdiff(ctx, case)
+        check_union(ctx, case)
+
+
+# -- index maps ---------------------------------------------------------------------------------------------------
+
+_R4_IDX_DTYPES = dict(_IDX_DTYPES, uint64=np.uint64)
+
+
+def _r4_shape_arg(shape, form):
+    """the same shape as callers hold it (``sptenmat`` passes ``tshape[rdims]``, an ndarray; a tensor grown by assignment
+    has numpy integers in its shape tuple).  A numpy type that cannot hold an entry falls back to Python ints."""
+    if form in ("tuple", "ndarray"):
+        form += "-np.int64"
+    kind, _, name = form.partition("-")
+    if form == "from-sptensor":
+        return ttb.sptensor(shape=tuple(shape)).shape
+    if form == "tuple-mixed":
+        return tuple(np.int32(x) if i % 2 else int(x) for i, x in enumerate(shape))
+    if form == "ndarray-slice":  # e.g. np.array(T.shape)[dims]: a strided view
+        big = np.zeros(2 * len(shape), dtype=np.int64)
+        big[::2] = shape
+        return big[::2]
+    if form == "tuple-int":
+        return tuple(int(x) for x in shape)
+    dt = np.dtype(name[3:])
+    if not _fits(dt, 0, max(shape)):
+        return tuple(int(x) for x in shape)
+    if kind == "tuple":
+        return tuple(dt.type(x) for x in shape)
+    return np.array(shape, dtype=dt)
+
+
+@st.composite
+def _index_presented(draw, tier):
+    n = draw(st.sampled_from([1, 2, 3, 4, 6, 6, 7, 7, 8, 8]))
+    if n >= 6:
+        shape = [draw(st.integers(1, 3)) for _ in range(n)]
+        if draw(st.booleans()):  # one longer mode, anywhere
+            shape[draw(st.integers(0, n - 1))] = draw(st.sampled_from([5, 17, 200, 300]))
+    else:
+        cap = draw(st.sampled_from([300, 40, 4, 4]))
+        shape = [draw(st.integers(1, cap)) for _ in range(n)]
+    size = ref.prod(shape)
+    k = draw(st.integers(0, 8))
+    region = draw(st.sampled_from(["any", "any", "low", "high"]))
+    top = size - 1 if region != "low" else min(size - 1, 100)
+    bot = 0 if region != "high" else max(0, size - 1 - 100)
+    idx = draw(st.lists(st.integers(bot, top), min_size=k, max_size=k))
+    neg = draw(st.lists(st.booleans(), min_size=k, max_size=k)) if draw(st.booleans()) else [False] * k
+    return dict(shape=shape, idx=idx, neg=neg, dtype=draw(st.sampled_from(sorted(_R4_IDX_DTYPES))),
+                subs_dtype=draw(st.sampled_from(sorted(_R4_IDX_DTYPES))),
+                order=draw(st.sampled_from(["F", None, "C", "C"])), order_how=draw(st.sampled_from(["keyword", "positional"])),
+                shape_form=draw(st.sampled_from(["tuple-int", "from-sptensor", "tuple-mixed", "ndarray-slice", "tuple", "tuple",
+                                                 "ndarray"])) if draw(st.booleans()) else
+                draw(st.sampled_from(["tuple", "tuple", "ndarray"])) + "-" + draw(st.sampled_from(
+                    ["np.uint8", "np.int32", "np.uint64", "np.int16", "np.uint16", "np.uint32", "np.intp", "np.int64"])),
+                idx_layout=draw(st.sampled_from(["fresh", "strided", "reversed", "readonly"])),
+                subs_layout=draw(st.sampled_from(_R4_LAYOUTS)),
+                debug_logging=draw(st.sampled_from([False, False, True])))
+
+
+def _r4_idx_view(a, layout):
+    if layout == "strided":
+        big = np.zeros(2 * a.shape[0], dtype=a.dtype)
+        big[::2] = a
+        return big[::2]
+    if layout == "reversed":
+        return np.ascontiguousarray(a[::-1])[::-1]
+    if layout == "readonly":
+        a = a.copy()
+        a.setflags(write=False)
+    return a
+
+
+@cell("C17/index/presented", strategy=_index_presented, quick=400, thorough=3000, shards=(2, 8))
+def index_presented(ctx, case):
+    """class 11 / 13: tensors of order 6-8 (and 1-4), the shape as a tuple of numpy integers of every width / an ndarray / the
+    ``shape`` of a tensor, index and subscript arrays in int16 .. uint64 (the subscripts in their own dtype), strided / F-ordered /
+    read-only, ``order`` given positionally in its documented place or by keyword.  Oracle: mixed-radix digits in Python."""
+    shape = tuple(case["shape"])
+    size = ref.prod(shape)
+    idx = list(case["idx"])
+    order = case["order"]
+    dt = _R4_IDX_DTYPES[case["dtype"]]
+    neg = list(case["neg"]) if not np.issubdtype(dt, np.unsignedinteger) else [False] * len(idx)
+    given = [i - size if ng else i for i, ng in zip(idx, neg)]
+    if given and not _fits(dt, min(given), max(given)):
+        dt = np.int64
+    sdt = _R4_IDX_DTYPES[case["subs_dtype"]]
+    if not _fits(sdt, 0, max(shape) - 1):
+        sdt = np.int64
+    positional = case["order_how"] == "positional" and order is not None
+    oargs, okw = ((order,), {}) if positional else ((), {} if order is None else dict(order=order))
+    ctx.nt = len(set(shape)) >= 2 and len(idx) >= 1
+    ctx.label(f"order{len(shape)}", "idx-" + np.dtype(dt).name, "subs-" + np.dtype(sdt).name, "shape-" + case["shape_form"],
+              f"order-arg-{order}", "order-positional" if positional else "order-keyword-or-default",
+              "idx-layout-" + case["idx_layout"], "subs-layout-" + case["subs_layout"], "empty" if not idx else "nonempty",
+              "has-negative" if any(neg) else "no-negative",
+              "idx-dtype-holds-size" if _fits(dt, 0, size) else "idx-dtype-narrower-than-size",
+              "subs-dtype-holds-size" if _fits(sdt, 0, size) else "subs-dtype-narrower-than-size",
+              "debug-logging" if case["debug_logging"] else "default-logging")
+    expect_subs = [_py_ind2sub(i, shape, order) for i in idx]
+    expect = np.array(expect_subs, dtype=np.int64).reshape(len(idx), len(shape))
+    shape_arg = _r4_shape_arg(shape, case["shape_form"])
+    shape_keep = np.array(shape_arg, dtype=object)
+    lin_arg = _r4_idx_view(np.array(given, dtype=dt), case["idx_layout"])
+    sub_arg = expect.astype(sdt)
+    sub_arg = _mat(sub_arg.tolist(), len(shape), "0xw", "int", "C").astype(sdt) if not idx else sub_arg
+    if idx:
+        lay = case["subs_layout"]
+        if lay == "F":
+            sub_arg = np.asfortranarray(sub_arg)
+        elif lay == "strided":
+            big = np.zeros((2 * len(idx), len(shape)), dtype=sdt)
+            big[::2] = sub_arg
+            sub_arg = big[::2]
+        else:
+            sub_arg = _view_as(sub_arg, lay)
+    sL, sS = _snap(lin_arg), _snap(sub_arg)
+    with _root_logger_at_debug(case["debug_logging"]):
+        with ctx.sut("tt_ind2sub/presented"):
+            s = ttu.tt_ind2sub(shape_arg, lin_arg, *oargs, **okw)
+        with ctx.sut("tt_sub2ind/presented"):
+            l = ttu.tt_sub2ind(shape_arg, sub_arg, *oargs, **okw)
+    s, l = np.asarray(s), np.asarray(l)
+    ctx.require(s.shape == expect.shape, "ind2sub-result-shape/presented", s.shape)
+    if idx:
+        ctx.check(np.issubdtype(s.dtype, np.integer), "ind2sub-integer-subscripts/presented", s.dtype)
+    ctx.check(s.tolist() == expect.tolist(), "ind2sub-subset/presented", f"{s.tolist()} vs {expect.tolist()}")
+    ctx.require(l.size == len(idx), "sub2ind-result-size/presented", l.shape)
+    ctx.check([int(v) for v in l.reshape(-1).tolist()] == idx and (not idx or np.issubdtype(l.dtype, np.integer)),
+              "sub2ind-subset/presented", f"{l.tolist()} ({l.dtype}) vs {idx}")
+    ctx.check(np.array_equal(lin_arg, sL[0]) and lin_arg.flags.writeable == sL[2] and np.array_equal(sub_arg, sS[0])
+              and sub_arg.flags.writeable == sS[2] and sub_arg.dtype == sS[0].dtype and lin_arg.dtype == sL[0].dtype
+              and np.array_equal(np.array(shape_arg, dtype=object), shape_keep), "index-maps-leave-arguments/presented")
+    # mutual inverses through the helper's own results (whatever dtype / layout they come back in)
+    if idx:
+        with ctx.sut("tt_sub2ind(tt_ind2sub)/presented"):
+            back = np.asarray(ttu.tt_sub2ind(shape_arg, s, *oargs, **okw))
+        ctx.check([int(v) for v in back.reshape(-1).tolist()] == idx, "sub2ind-inverts-ind2sub/presented")
+        with ctx.sut("tt_ind2sub(tt_sub2ind)/presented"):
+            back2 = np.asarray(ttu.tt_ind2sub(shape_arg, l, *oargs, **okw))
+        ctx.check(back2.tolist() == expect.tolist(), "ind2sub-inverts-sub2ind/presented")
+
+
+# -- khatrirao ---------------------------------------------------------------------------------------------------
+
+_R4_KR_DTYPES = {"float64": np.float64, "float32": np.float32, "int64": np.int64, "int32": np.int32, "int16": np.int16,
+                 "int8": np.int8, "uint8": np.uint8, "uint16": np.uint16}
+
+
+@st.composite
+def _kr_presented(draw, tier):
+    """1..6 matrices with one column (half of the cases) or 2..3, as ``khatrirao(A, B, C)`` / ``khatrirao(*list)`` /
+    ``khatrirao(*tuple)``, ``reverse`` omitted / ``reverse=False`` / ``reverse=True``, every matrix in its own dtype (float32 and
+    the integer types of every width) and memory layout.  Entries are multiples of 1/2 in [-2, 2] (integers for integer
+    types, 0..2 for unsigned ones): every product of up to six of them is exact in every type involved (|p| <= 64, at
+    most 10 significant bits), so all presentations must agree exactly."""
+    k = draw(st.sampled_from([1, 2, 2, 3, 3, 4, 5, 6]))
+    ncol = draw(st.sampled_from([1, 1, 1, 2, 3]))
+    rows = [draw(st.integers(1, 3)) for _ in range(k)]
+    mode = draw(st.sampled_from(["same", "mixed", "mixed"]))
+    pool = sorted(_R4_KR_DTYPES)
+    dtypes = [draw(st.sampled_from(pool))] * k if mode == "same" else [draw(st.sampled_from(pool)) for _ in range(k)]
+    mats = []
+    for r, dn in zip(rows, dtypes):
+        if dn.startswith("float"):
+            ent = st.sampled_from([-2.0, -1.5, -1.0, -0.5, 0.0, 0.5, 1.0, 1.5, 2.0])
+        elif dn.startswith("uint"):
+            ent = st.sampled_from([0.0, 1.0, 2.0])
+        else:
+            ent = st.sampled_from([-2.0, -1.0, 0.0, 1.0, 2.0])
+        mats.append([[draw(ent) for _ in range(ncol)] for _ in range(r)])
+    return dict(mats=mats, rows=rows, ncol=ncol, dtypes=dtypes, layout=[draw(st.sampled_from(_R4_LAYOUTS)) for _ in range(k)],
+                how=draw(st.sampled_from(["separate", "star-list", "star-tuple"])),
+                reverse=draw(st.sampled_from(["omitted", "kw-false", "kw-true", "kw-true"])),
+                debug_logging=draw(st.sampled_from([False, False, True])))
+
+
+@cell("C17/khatrirao/presented", strategy=_kr_presented, quick=250, thorough=2000, shards=(2, 8))
+def khatrirao_presented(ctx, case):
+    k, ncol = len(case["rows"]), case["ncol"]
+    vals = [np.array(m, dtype=float).reshape(r, ncol) for m, r in zip(case["mats"], case["rows"])]
+    mats = []
+    for v, dn, lay in zip(vals, case["dtypes"], case["layout"]):
+        M = v.astype(_R4_KR_DTYPES[dn])
+        if lay == "F":
+            M = np.asfortranarray(M)
+        elif lay == "strided":
+            big = np.zeros((2 * M.shape[0], ncol), dtype=M.dtype)
+            big[::2] = M
+            M = big[::2]
+        else:
+            M = _view_as(M, lay)
+        mats.append(M)
+    snaps = [_snap(M) for M in mats]
+    rev = case["reverse"] == "kw-true"
+    kw = {} if case["reverse"] == "omitted" else dict(reverse=rev)
+    ctx.nt = k >= 2 and len(set(case["rows"])) >= 2
+    ctx.label(f"k{k}", f"ncol{ncol}", "reverse-" + case["reverse"], "args-" + case["how"],
+              "dtypes-same-" + case["dtypes"][0] if len(set(case["dtypes"])) == 1 else "dtypes-mixed",
+              *sorted({"has-" + d for d in case["dtypes"]}), *sorted({"layout-" + x for x in case["layout"]}),
+              "debug-logging" if case["debug_logging"] else "default-logging")
+    with _root_logger_at_debug(case["debug_logging"]):
+        with ctx.sut("khatrirao/presented"):
+            if case["how"] == "separate":
+                got = {1: lambda a: ttb.khatrirao(a[0], **kw), 2: lambda a: ttb.khatrirao(a[0], a[1], **kw),
+                       3: lambda a: ttb.khatrirao(a[0], a[1], a[2], **kw), 4: lambda a: ttb.khatrirao(a[0], a[1], a[2], a[3], **kw),
+                       5: lambda a: ttb.khatrirao(a[0], a[1], a[2], a[3], a[4], **kw),
+                       6: lambda a: ttb.khatrirao(a[0], a[1], a[2], a[3], a[4], a[5], **kw)}[k](mats)
+            elif case["how"] == "star-list":
+                got = ttb.khatrirao(*list(mats), **kw)
+            else:
+                got = ttb.khatrirao(*tuple(mats), **kw)
+    want = _kr_ref([v.astype(np.complex128) for v in (vals[::-1] if rev else vals)]).real
+    ctx.require(isinstance(got, np.ndarray) and got.shape == want.shape, "khatrirao-shape/presented",
+                f"{getattr(got, 'shape', None)} vs {want.shape}")
+    ctx.require(got.dtype.kind in "biuf", "khatrirao-numeric-result/presented", got.dtype)
+    ctx.check(bool(np.array_equal(np.array(got, dtype=float), want)), "khatrirao-columnwise-kronecker/presented",
+              ref.diff_info(np.array(got, dtype=float), want))
+    ctx.check(all(np.array_equal(M, keep) and M.dtype == keep.dtype and M.strides == st_ and M.flags.writeable == wr
+                  for M, (keep, st_, wr) in zip(mats, snaps)), "khatrirao-leaves-arguments/presented")
+    # the same request in the library's favourite presentation: float64, C-contiguous, writable, separate list
+    with ctx.sut("khatrirao/plain-presentation"):
+        plain = ttb.khatrirao(*[np.array(v, dtype=np.float64, order="C") for v in vals], reverse=rev)
+    ctx.check(isinstance(plain, np.ndarray) and plain.shape == got.shape and
+              bool(np.array_equal(np.array(got, dtype=float), plain)), "khatrirao-same-answer-in-both-presentations")
+
+
+def _enum_kr_rejected(tier):
+    """class 14 / 12: requests the function states it rejects, built so that NumPy broadcasting would accept them: column
+    counts (1, n) in every position, all other extents 1 or not; arguments that are not matrices (a vector of the right
+    length, a (r, 1, n) array); a bare list (stated: interface changed); ``reverse`` that is not a bool"""
+    for n in (2, 3):
+        for rows in ([1, 1], [2, 3], [1, 1, 1], [2, 1, 3]):
+            for odd in range(len(rows)):
+                for rev in (False, True):
+                    yield dict(kind="columns-1-vs-n", rows=rows, ncols=[1 if j == odd else n for j in range(len(rows))], reverse=rev)
+                    yield dict(kind="columns-n-vs-1", rows=rows, ncols=[n if j == odd else 1 for j in range(len(rows))], reverse=rev)
+    for rows in ([2, 3], [1, 1], [3, 2, 2]):
+        for odd in range(len(rows)):
+            for rev in (False, True):
+                for kind in ("vector-argument", "three-way-argument", "scalar-argument"):
+                    yield dict(kind=kind, rows=rows, ncols=[2] * len(rows), odd=odd, reverse=rev)
+    for rows in ([2, 3], [2], [1, 1, 1]):
+        yield dict(kind="bare-list", rows=rows, ncols=[2] * len(rows), reverse=False)
+    for bad in (1, 0, None, "F", "True"):
+        yield dict(kind="reverse-not-bool", rows=[2, 3], ncols=[2, 2], reverse=bad)
+
+
+@cell("C17/khatrirao/rejected", enum=_enum_kr_rejected)
+def khatrirao_rejected(ctx, case):
+    """stated rejections ("All matrices must have the same number of columns", "Each argument must be a matrix", "Khatrirao
+    interface has changed", "Expected a bool for reverse") and, after each, arguments that are bit for bit what they were"""
+    ctx.nt = True
+    ctx.label(case["kind"], f"k{len(case['rows'])}")
+    it = iter(_PRIMES)
+    mats = [np.array([[float(next(it)) for _ in range(c)] for _ in range(r)]).reshape(r, c) for r, c in zip(case["rows"], case["ncols"])]
+    if case["kind"] == "vector-argument":
+        mats[case["odd"]] = mats[case["odd"]][0, :].copy()  # length n: broadcasts against (r, 1, n)
+    elif case["kind"] == "three-way-argument":
+        mats[case["odd"]] = mats[case["odd"]].reshape(mats[case["odd"]].shape[0], 1, -1)
+    elif case["kind"] == "scalar-argument":
+        mats[case["odd"]] = np.array(3.0)
+    keep = [m.copy() for m in mats]
+    if case["kind"] == "bare-list":
+        lst = list(mats)
+        ctx.raises("khatrirao-bare-list-accepted", ttb.khatrirao, lst)
+        ctx.check(len(lst) == len(mats) and all(a is b for a, b in zip(lst, mats)), "khatrirao-rejected-list-left-alone")
+    else:
+        ctx.raises(f"khatrirao-{case['kind']}-accepted", ttb.khatrirao, *mats, reverse=case["reverse"])
+    ctx.check(all(a.shape == b.shape and a.dtype == b.dtype and np.array_equal(a, b) for a, b in zip(mats, keep)),
+              "khatrirao-rejected-request-leaves-arguments")
+    # the next valid request is answered as if nothing had happened
+    X, Y = np.array([[2.0, 3.0], [5.0, 7.0]]), np.array([[11.0, 13.0]])
+    with ctx.sut("khatrirao-after-rejection"):
+        nxt = ttb.khatrirao(X, Y)
+    ctx.check(isinstance(nxt, np.ndarray) and np.array_equal(nxt, np.array([[22.0, 39.0], [55.0, 91.0]])),
+              "khatrirao-valid-request-after-rejection")
+
+
+# -- tt_dimscheck: further stated rejections, and the state of the arguments afterwards ------------------------------
+
+
+def _enum_dimscheck_r4(tier):
+    for N in range(1, 6):
+        for form in ("list", "tuple", "ndarray", "row2d", "col2d", "ndarray-int32", "ndarray-uint8"):
+            # repeated dims (stated: "Repeated dims aren't allowed"): next to each other or apart, among valid ones
+            for d in range(N):
+                for others in ([], [m for m in range(N) if m != d]):
+                    for dims in ([d, d] + others, [d] + others + [d], others + [d, d]):
+                        for M in (None, len(dims), len(set(dims)), N):
+                            yield dict(N=N, kind="repeated-dims", dims=dims, exclude=None, form=form, M=M)
+            # dims and exclude_dims both given, one of them of length 0 (stated: "... but not both")
+            for d in range(N):
+                yield dict(N=N, kind="both-one-empty", dims=[], exclude=[d], form=form if form in ("list", "tuple", "ndarray") else "list", M=None)
+                yield dict(N=N, kind="both-one-empty", dims=[d], exclude=[], form=form if form in ("list", "tuple", "ndarray") else "list", M=None)
+            # negative entry next to valid ones in other dtypes / forms
+            if not form.endswith("uint8"):
+                yield dict(N=N, kind="negative-dims", dims=list(range(N)) + [-1], exclude=None, form=form, M=None)
+                yield dict(N=N, kind="exclude-out-of-range", dims=None, exclude=[0, -1], form=form, M=None)
+            yield dict(N=N, kind="exclude-out-of-range", dims=None, exclude=[0, N], form=form, M=None)
+
+
+@cell("C17/dimscheck/rejected-r4", enum=_enum_dimscheck_r4, shards=(2, 4))
+def dimscheck_rejected_r4(ctx, case):
+    N = case["N"]
+    ctx.nt = True
+    ctx.label(case["kind"], case["form"])
+    kw = {}
+    if case["dims"] is not None:
+        kw["dims"] = _present(case["dims"], case["form"])
+    if case["exclude"] is not None:
+        kw["exclude_dims"] = _present(case["exclude"], case["form"])
+    keep = _snap_args(kw)
+    ctx.raises(f"dimscheck-{case['kind']}-accepted", ttu.tt_dimscheck, N, case["M"], **kw)
+    ctx.check(_args_left_alone(kw, keep), "dimscheck-rejected-request-leaves-arguments")
+    with ctx.sut("tt_dimscheck-after-rejection"):
+        out = ttu.tt_dimscheck(N, N, dims=list(range(N))[::-1])
+    ctx.check(isinstance(out, tuple) and len(out) == 2 and np.asarray(out[0]).tolist() == list(range(N))
+              and np.asarray(out[1]).tolist() == list(range(N))[::-1], "dimscheck-valid-request-after-rejection")
+
+
+# -- tt_dimscheck: valid requests as callers write them (class 11) -----------------------------------------------------
+
+_R4_SCALARS = {"int": int, "np.int64": np.int64, "np.int32": np.int32, "np.uint8": np.uint8, "np.intp": np.intp,
+               "np.uint64": np.uint64, "np.int16": np.int16}
+
+
+def _r4_present_dims(sel, form):
+    if form == "list-of-npint":  # e.g. [n for n in np.arange(N) if ...], entries of differing integer types
+        return [(np.int32, np.int64, np.uint8, np.intp)[i % 4](v) for i, v in enumerate(sel)]
+    if form == "tuple-of-npint":
+        return tuple(np.int64(v) for v in sel)
+    if form.startswith("scalar-"):
+        return _R4_SCALARS[form[len("scalar-"):]](sel[0])
+    if form in ("readonly", "strided", "reversed"):
+        return _r4_idx_view(np.array(sel, dtype=np.int64), form)
+    return _present(sel, form)
+
+
+@st.composite
+def _dimscheck_presented(draw, tier):
+    N = draw(st.integers(1, 8))
+    k = draw(st.integers(0, N))
+    sel = list(draw(st.permutations(range(N))))[:k]
+    which = draw(st.sampled_from(["dims", "dims", "dims", "exclude", "exclude", "exclude", "default"]))
+    if which == "default":
+        k, sel = 0, []
+    P = k if which == "dims" else N - k
+    forms = ["list", "tuple", "ndarray-int16", "ndarray-uint16", "ndarray-uint32", "ndarray-uint64", "ndarray-intp", "ndarray-int8",
+             "ndarray-int32", "readonly", "strided", "reversed"]
+    if k >= 1:
+        forms += ["list-of-npint", "tuple-of-npint", "row2d", "col2d"]
+    if k == 1:
+        forms += ["scalar-" + t for t in _R4_SCALARS] * 2
+    return dict(N=N, which=which, sel=sel, form=draw(st.sampled_from(forms)), M=draw(st.sampled_from([None, P, N])),
+                Ntype=draw(st.sampled_from(sorted(_R4_SCALARS))), Mtype=draw(st.sampled_from(sorted(_R4_SCALARS))),
+                call=draw(st.sampled_from(["keyword", "positional", "M-keyword"])),
+                debug_logging=draw(st.sampled_from([False, False, True])))
+
+
+@cell("C17/dimscheck/presented", strategy=_dimscheck_presented, quick=300, thorough=2500, shards=(1, 4))
+def dimscheck_presented(ctx, case):
+    """class 11 / 13: the laws of C17/dimscheck/enumerated with N and M as numpy integers of several widths, the mode designation
+    as a list / tuple of numpy integers, an array in int8 .. uint64, a read-only / strided / backwards view, a numpy scalar; M and
+    dims / exclude_dims given positionally in their documented places (N, M, dims, exclude_dims) or by keyword"""
+    N, which, sel, M = case["N"], case["which"], case["sel"], case["M"]
+    chosen = list(sel) if which == "dims" else [m for m in range(N) if m not in sel]
+    P = len(chosen)
+    sdims_exp = sorted(chosen)
+    ctx.nt = chosen != sdims_exp or (which == "exclude" and sel != sorted(sel))
+    ctx.label(which, "form-" + case["form"], "N-" + case["Ntype"], "M-none" if M is None else "M-" + case["Mtype"],
+              "call-" + case["call"], "M=P" if M == P else ("M=N" if M == N else "M-none"), f"N{N}",
+              "debug-logging" if case["debug_logging"] else "default-logging")
+    arg = _r4_present_dims(sel, case["form"]) if which != "default" else None
+    keep = _snap_args(dict(d=arg)) if which != "default" else {}
+    Narg = _R4_SCALARS[case["Ntype"]](N)
+    Marg = None if M is None else _R4_SCALARS[case["Mtype"]](M)
+    with _root_logger_at_debug(case["debug_logging"]):
+        with ctx.sut("tt_dimscheck/presented"):
+            if which == "default":
+                out = ttu.tt_dimscheck(Narg, Marg) if case["call"] == "positional" else ttu.tt_dimscheck(N=Narg, M=Marg)
+            elif case["call"] == "positional":
+                out = ttu.tt_dimscheck(Narg, Marg, arg) if which == "dims" else ttu.tt_dimscheck(Narg, Marg, None, arg)
+            elif case["call"] == "M-keyword":
+                out = ttu.tt_dimscheck(Narg, M=Marg, **{("dims" if which == "dims" else "exclude_dims"): arg})
+            else:
+                out = ttu.tt_dimscheck(N=Narg, M=Marg, **{("dims" if which == "dims" else "exclude_dims"): arg})
+    ctx.require(isinstance(out, tuple) and len(out) == 2, "dimscheck-returns-pair/presented", type(out).__name__)
+    sdims, vidx = out
+    ctx.require(isinstance(sdims, np.ndarray) and sdims.ndim == 1, "dimscheck-sdims-1d-array/presented", repr(sdims))
+    ctx.check(sdims.tolist() == sdims_exp, "dimscheck-sorted-selected-modes/presented", f"{sdims.tolist()} vs {sdims_exp}")
+    if P:  # the modes are used as indices (``shape[sdims]``, ``U[vidx[k]]``)
+        ctx.check(np.issubdtype(sdims.dtype, np.integer), "dimscheck-sdims-integer/presented", f"{sdims!r}")
+    ctx.check(which == "default" or _args_left_alone(dict(d=arg), keep), "dimscheck-leaves-arguments/presented")
+    if M is None:
+        ctx.check(vidx is None, "dimscheck-no-multiplicands-no-index/presented", repr(vidx))
+        return
+    ctx.require(isinstance(vidx, np.ndarray) and vidx.shape == (P,), "dimscheck-vidx-one-per-mode/presented", repr(vidx))
+    v = [int(x) for x in vidx.tolist()]
+    if P:
+        ctx.check(np.issubdtype(vidx.dtype, np.integer), "dimscheck-vidx-integer/presented", f"{vidx!r}")
+    if M == P:
+        ctx.check(all(0 <= v[j] < P and chosen[v[j]] == sdims_exp[j] for j in range(P)),
+                  "dimscheck-vidx-position-in-given-order/presented", f"dims={chosen} vidx={v}")
+    else:
+        ctx.check(v == sdims_exp, "dimscheck-vidx-is-mode-when-full/presented", f"dims={chosen} vidx={v}")
+
+
+# ==========================================================================
 # predicates for known findings
 # ==========================================================================
 
@@ -1431,6 +2068,8 @@ PREDICATES = {
     "idx_dtype_narrower_than_size": lambda c: not subset_classes(c)["idx_dtype_holds_size"],
     "shape_product_overflows_and_negative_index": lambda c: (not subset_classes(c)["shape_prod_fits"])
     and subset_classes(c)["has_negative"],
+    # tt_dimscheck: np.arange(0, N) with N a numpy uint64 is a float64 array (exclude_dims / default path)
+    "order_given_as_uint64_and_modes_from_arange": lambda c: c.get("Ntype") == "np.uint64" and c.get("which") in ("exclude", "default"),
     # gather_wrap_dims 'bc': rdims[0] - 1 in an unsigned dtype wraps for mode 0
     "unsigned_first_mode_backward_cyclic": lambda c: c.get("given") == "cyclic" and c.get("cyc") == "bc"
     and list(c.get("sel")) == [0] and str(c.get("dtype", "int64")).startswith("uint"),
